@@ -462,6 +462,21 @@ func (c *Ctx) c18Output() {
 		case !dominates(ex, get):
 			good, why = false, "the content is read before Execute returned"
 		}
+		if good {
+			// "Output() returns all of it": whatever Execute reports, what the child wrote is handed back — every return
+			// that follows Execute carries the content read from the string logger, nothing else.
+			allInstrs(f, func(in ssa.Instruction) {
+				r, ok := in.(*ssa.Return)
+				if !ok || len(r.Results) == 0 || !dominates(ex, r) {
+					return
+				}
+				for _, l := range sources(r.Results[0], deriveOpts{through: func(n string) bool { return strings.HasPrefix(n, "strings.") }}) {
+					if l != ssa.Value(get) {
+						good, why = false, "the return at "+c.ipos(r)+" follows Execute and hands back something other than the string logger's content: when the child fails, what it wrote before failing is lost to the caller"
+					}
+				}
+			})
+		}
 	}
 	c.check(good, "M5", fname(f), c.pos(f.Pos()), "string logger ∈ combined loggers → subprocess; content read after Execute", why)
 }
